@@ -9,7 +9,7 @@
    Ops: resolve <n> <idx> | ser_time <ser> | ser_get <ser> <idx> | ser_add <ser> <ser>
         sc_get <sc> <idx> | sc_add <sc> <sc> | lab_get .. | lab_add .. | par_get .. | par_add ..
         bm_make <bm> | bm_get <bm> <idx> | bm_add <bm> <bm> | bm_runs <bm> | bm_map <bm> | bm_rt <bm>
-        bm_eq <bm> <bm> | eq <axis> <axis> | header <k> <axis>*k  | file <datashape> <k> <axis>*k *)
+        bm_eq <bm> <bm> | setext <[code,id,...]> <xmlid> | eq <axis> <axis> | header <k> <axis>*k  | file <datashape> <k> <axis>*k *)
 let optz s = if s = "_" then None else Some (z_of_string s)
 let str_optz = function None -> "_" | Some v -> string_of_z v
 let parse_idx tok =
@@ -141,5 +141,8 @@ let handle op args = match op, args with
        (match img_load (fun x -> Ok x) (fun f -> Ok f) f with
         | Err e -> "err " ^ str_err e
         | Ok ((mat, sh), _) -> "ok nifti=" ^ string_of_zlist nsh ^ " shape=" ^ string_of_zlist sh ^ " dims=" ^ str_dims mat))
+  | "setext", [exts; xml] ->
+    let r = set_cifti_ext (pairs (zlist_of_string exts)) (z_of_string xml) in
+    "ok " ^ str_nv r ^ " first=" ^ str_optz (first_cifti_ext r)
   | _ -> "err driver:badop"
 let () = run_lines handle
